@@ -182,6 +182,10 @@ type State struct {
 	base  string // name of the heap epoch; heaps not in the map are H!<base>!<sort>
 	mbase string // same for map heaps
 	heaps map[Sort]Term
+	// hbound[s]: every reference stored in the heap of sort s belongs to an object
+	// allocated before this bound (the allocation counter at the last write to that heap)
+	hbound     map[Sort]Term
+	epochBound Term
 	alloc Term
 	maps  map[string]Term // map heaps: "dom|K|V" / "val|K|V"
 	ghost map[string]Term
@@ -189,9 +193,13 @@ type State struct {
 
 func (s *State) clone() *State {
 	n := &State{reach: s.reach, taint: s.taint, base: s.base, mbase: s.mbase, alloc: s.alloc,
+		hbound: make(map[Sort]Term, len(s.hbound)), epochBound: s.epochBound,
 		heaps: make(map[Sort]Term, len(s.heaps)), maps: make(map[string]Term, len(s.maps)), ghost: make(map[string]Term, len(s.ghost))}
 	for k, v := range s.heaps {
 		n.heaps[k] = v
+	}
+	for k, v := range s.hbound {
+		n.hbound[k] = v
 	}
 	for k, v := range s.maps {
 		n.maps[k] = v
@@ -226,6 +234,26 @@ func (vc *VC) heap(st *State, v Sort) Term {
 func (vc *VC) setHeap(st *State, v Sort, h Term) {
 	vc.heapReg[v] = true
 	st.heaps[v] = vc.Define("h", h)
+	st.touch(v)
+}
+
+// touch records that heap sort v was written in the current allocation epoch.
+func (st *State) touch(v Sort) {
+	if st.hbound == nil {
+		st.hbound = map[Sort]Term{}
+	}
+	st.hbound[v] = st.alloc
+}
+
+// heapBound: references read from heap sort v point to objects with id below this.
+func (vc *VC) heapBound(st *State, v Sort) Term {
+	if b, ok := st.hbound[v]; ok {
+		return b
+	}
+	if st.epochBound.Valid() {
+		return st.epochBound
+	}
+	return st.alloc
 }
 
 // ghostVar returns the current value of a declared ghost variable in st.
@@ -315,21 +343,23 @@ func (vc *VC) havocAll(st *State) {
 	st.base = vc.freshName("ep")
 	st.mbase = st.base
 	st.heaps = map[Sort]Term{}
+	st.hbound = map[Sort]Term{}
 	st.maps = map[string]Term{}
 	na := vc.Fresh("alloc", SInt)
 	st.assume(Ge(na, st.alloc))
 	st.alloc = na
+	st.epochBound = na
 }
 
 // mergeStates builds the state at a join from the incoming edge states.
 func (vc *VC) mergeStates(ins []*State) *State {
 	if len(ins) == 0 {
-		return &State{reach: False, taint: False, base: "dead", mbase: "dead", heaps: map[Sort]Term{}, maps: map[string]Term{}, ghost: map[string]Term{}, alloc: IntLit(1)}
+		return &State{reach: False, taint: False, base: "dead", mbase: "dead", hbound: map[Sort]Term{}, heaps: map[Sort]Term{}, maps: map[string]Term{}, ghost: map[string]Term{}, alloc: IntLit(1)}
 	}
 	if len(ins) == 1 {
 		return ins[0].clone()
 	}
-	out := &State{heaps: map[Sort]Term{}, maps: map[string]Term{}, ghost: map[string]Term{}}
+	out := &State{heaps: map[Sort]Term{}, hbound: map[Sort]Term{}, maps: map[string]Term{}, ghost: map[string]Term{}}
 	var reaches []Term
 	for _, s := range ins {
 		reaches = append(reaches, s.reach)
@@ -379,9 +409,21 @@ func (vc *VC) mergeStates(ins []*State) *State {
 		sl = append(sl, string(k))
 	}
 	sort.Strings(sl)
+	out.hbound = map[Sort]Term{}
+	out.epochBound = out.alloc
 	for _, k := range sl {
 		srt := Sort(k)
 		out.heaps[srt] = vc.Define("h", sel(func(s *State) Term { return vc.heap(s, srt) }))
+		out.hbound[srt] = vc.Define("hb", sel(func(s *State) Term { return vc.heapBound(s, srt) }))
+	}
+	allSame := true
+	for _, s := range ins {
+		if s.epochBound.S != ins[0].epochBound.S || s.base != ins[0].base {
+			allSame = false
+		}
+	}
+	if allSame {
+		out.epochBound = ins[0].epochBound
 	}
 	mkeys := map[string]bool{}
 	for _, s := range ins {
@@ -420,6 +462,13 @@ func (vc *VC) mergeStates(ins []*State) *State {
 		}
 		if ok {
 			out.ghost[kk] = vc.Define("g", sel(func(s *State) Term { return s.ghost[kk] }))
+		} else if strings.HasPrefix(kk, "chrecv!") {
+			out.ghost[kk] = vc.Define("g", sel(func(s *State) Term {
+				if t, ok := s.ghost[kk]; ok {
+					return t
+				}
+				return Term{"G0!" + kk, SArray(SInt, SInt)}
+			}))
 		} else if strings.HasPrefix(kk, "gv!") {
 			if gv := vc.ctx.ghostVars[kk[3:]]; gv != nil {
 				out.ghost[kk] = vc.Define("g", sel(func(s *State) Term { t, _, _ := vc.ghostVar(s, gv); return t }))
